@@ -23,6 +23,11 @@ OLDBYTES = b"old content\n"
 OPS = {"open_excl", "open_w", "fwrite", "fflush", "fsync", "fclose", "replace", "rename", "unlink", "ret"}
 
 
+def no_lock_unlink_fault(op, path):
+    # a failing unlink of the lock file itself cannot be handled by any implementation
+    return not (op == "unlink" and path is not None and path.endswith(".lock"))
+
+
 # --------------------------------------------------------------------------- direct _GitFile scenario
 class Direct:
     """n actors, each: GitFile(path,'wb'); write chunks; close()|abort().  plans[a] =
@@ -38,6 +43,7 @@ class Direct:
         self.creator = {}
         self.world = sched.World(self.root, observe=self.observe, fault=faults,
                                  yield_ops=OPS - {"ret"}, fault_ops=OPS - {"ret", "open_excl"})
+        self.world.fault_pred = no_lock_unlink_fault
 
     def bounds(self, a):
         out, t = [0], 0
@@ -429,6 +435,7 @@ class CallerRun:
         self.fn, self.pairs = setup(self.root)
         self.before = {t: self.read(t) for (_, t) in self.pairs}
         self.world = sched.World(self.root, observe=self.observe, fault=fault)
+        self.world.fault_pred = no_lock_unlink_fault
         self.obs = []
 
     def read(self, rel):
@@ -701,7 +708,7 @@ def run(ctx):
                        "(each takes the lock at least once)")
     ctx.assumptions += ["POSIX semantics of O_EXCL/rename/unlink as in LockFile.tla (exercised on the real kernel in every run)",
                         "actors are greenlets with private handles; only the file system is shared",
-                        "lock released 'at exit' is judged after the actor's finalizers have run"]
+                        "lock released 'at exit' is judged when the operation returns or its exception reaches the caller, before any finalizer has run; a failing unlink of the lock file itself is not injected"]
     return ctx.finish(exhaustive=False)
 
 
